@@ -189,6 +189,9 @@ func (c *Ctx) Violation(class, caseID, what string, detail any) {
 	b, _ := json.MarshalIndent(rp, "", " ")
 	h := sha256.Sum256(b)
 	dir := filepath.Join(c.Dir, "replays")
+	if o := os.Getenv("VERIF_OUT"); o != "" {
+		dir = filepath.Join(o, "replays")
+	}
 	os.MkdirAll(dir, 0o755)
 	path := filepath.Join(dir, fmt.Sprintf("%s-%s.json", c.Prop, hex.EncodeToString(h[:6])))
 	os.WriteFile(path, b, 0o644)
@@ -342,8 +345,12 @@ func (c *Ctx) Finish() int {
 	}
 	if c.Only == "" {
 		b, _ := json.MarshalIndent(ev, "", " ")
-		os.MkdirAll(filepath.Join(c.Dir, "evidence"), 0o755)
-		os.WriteFile(filepath.Join(c.Dir, "evidence", c.Prop+".json"), append(b, '\n'), 0o644)
+		evdir := filepath.Join(c.Dir, "evidence")
+		if o := os.Getenv("VERIF_OUT"); o != "" { // scratch runs (mutants) must not touch the real evidence
+			evdir = filepath.Join(o, "evidence")
+		}
+		os.MkdirAll(evdir, 0o755)
+		os.WriteFile(filepath.Join(evdir, c.Prop+".json"), append(b, '\n'), 0o644)
 	}
 
 	// known findings: one line per listed open finding that was observed
